@@ -111,3 +111,33 @@ func VH_S_Delete() {
 		vx.Assert(vx.Implies(!hit, vx.SameRow(a, b)), "C10:other-schedules-untouched")
 	}
 }
+
+// VH_S_Search (C14): one page of a schedule search and its cursor.
+func VH_S_Search() {
+	c := vhSetup(vx.HavocMode | vx.Faults(vx.Opt("faults", 0)))
+	pat := vx.String("pattern")
+	vx.Assume(pat != "")
+	limit := vx.Int("limit")
+	vx.Assume(vx.And(limit >= 1, limit <= 2))
+	req := &t_api.SearchSchedulesRequest{Id: pat, Tags: vx.Tags("tags", 1), Limit: limit, SortId: vx.Int64Ptr("sortId")}
+	res, err := SearchSchedules(c, &t_api.Request{Kind: t_api.SearchSchedules, Tags: map[string]string{}, SearchSchedules: req})
+	if err != nil {
+		vx.Reach("error")
+		return
+	}
+	vx.Reach("page")
+	r := res.SearchSchedules
+	read := vx.YieldPost(0)
+	for k := range r.Schedules {
+		s := r.Schedules[k]
+		row := vx.Lookup(read, "schedules", s.Id)
+		vx.Assert(vx.And(row.Present(), s.Cron == row.Str("cron"), s.NextRunTime == row.Int("next_run_time"), s.CreatedOn == row.Int("created_on"), vx.MapEq(s.Tags, row.Map("tags"))), "C14:item-is-the-stored-schedule")
+	}
+	vx.Assert((r.Cursor != nil) == (len(r.Schedules) == limit), "C14:cursor-exactly-when-page-full")
+	if r.Cursor != nil {
+		vx.Reach("cursor")
+		n := r.Cursor.Next
+		last := r.Schedules[len(r.Schedules)-1]
+		vx.Assert(vx.And(n.Id == pat, n.Limit == limit, n.SortId != nil, *n.SortId == vx.Lookup(read, "schedules", last.Id).Int("sort_id"), vx.MapEq(n.Tags, req.Tags)), "C14:cursor-continues-the-same-query")
+	}
+}
